@@ -6,8 +6,9 @@ SPEC = dict(
     rule="each case = one configuration (ring / flow-buffer queue, RESP3 / RESP2, PipelineMultiplex, RingScaleEachConn 1-3 or "
          "default, AlwaysPipelining / DisableAutoPipelining, MaxFlushDelay, cache on/off) x 2-32 goroutines issuing tagged ECHO / GET / "
          "batches / cached reads / subscribe / unsubscribe with live, cancelled, expiring and already-done contexts, pushes injected "
-         "by the server; 3 scripted scenarios (proactive sunsubscribe during the writer's flush delay; push in the middle of a cache "
-         "batch; the flow-buffer hand-over race driven through the gap hooks); non-trivial = at least two goroutines and two calls; distinct by (configuration, op-kind histogram)",
+         "by the server; 4 scripted scenarios (proactive sunsubscribe during the writer's flush delay; push in the middle of a cache "
+         "batch; the flow-buffer hand-over race driven through the gap hooks; a reply that arrives for a cancelled caller held just "
+         "before its swallowing goroutine starts, on a 2-entry queue with a producer waiting for that entry); non-trivial = at least two goroutines and two calls; distinct by (configuration, op-kind histogram)",
     trusted=["fakeredis (our reading of the Redis protocol) and the recording dialler in front of it",
              "the cut of the recorded wire order into queue slots (harness/pipe/slots.go) uses the tags the observer put into "
              "its own commands; a wrong cut shows up as a model mismatch, not as a hidden one",
